@@ -522,6 +522,15 @@ impl<'a> PackedCircuitReader<'a> {
     }
 }
 
+/// Verification hook: the built-in scalar dictionary as `(scalar, index)`
+/// pairs.
+#[cfg(plonk_verif)]
+pub(crate) fn verif_scalar_table(
+    hades_optimization: bool,
+) -> Vec<(BlsScalar, usize)> {
+    scalar_map(hades_optimization).into_iter().collect()
+}
+
 #[cfg(test)]
 mod tests {
     use std::panic::catch_unwind;
